@@ -33,6 +33,11 @@ Theorem C02_dequeue : forall cs, 0 <= cs_enq cs ->
   | Ok cs' => 0 < cs_enq cs /\ cs_enq cs' = cs_enq cs - 1 /\ cs_avail cs' = cs_avail cs /\ cs_same_but_counts cs cs'
   | Err => cs_enq cs = 0 | Reject => False end.
 Proof. exact cs_decrement_enqueued_spec. Qed.
+Theorem C02_merge_repeated_row : forall cs n, let cs' := cs_add_chargers cs n in
+  cs_total cs' = cs_total cs + n /\ cs_avail cs' = cs_avail cs + n /\ cs_total cs' - cs_avail cs' = cs_total cs - cs_avail cs /\
+  cs_enq cs' = cs_enq cs /\ cs_id cs' = cs_id cs /\ cs_charger cs' = cs_charger cs /\ cs_price cs' = cs_price cs.
+Proof. exact cs_add_chargers_spec. Qed.
+Print Assumptions C02_merge_repeated_row.
 Theorem C02_plug_bounds_invariant : forall cs, cs_bounds cs ->
   (forall cs', cs_decrement_available cs = Ok cs' -> cs_bounds cs') /\
   (forall cs', cs_increment_available cs = Ok cs' -> cs_bounds cs') /\
